@@ -3,9 +3,12 @@
 
    Model: Mutate.update_node / recurse / make_new_node / set_value =
    Processor._update_node, its recurse(), Nodes.make_new_node, set_value +
-   _apply_change (processor.py / nodes.py after the fix: commits of branch mutate).
+   _apply_change (processor.py / nodes.py after the fix: commits of branch mutate
+   and 7612ed9 of branch fixer2).
    Spec:  C03spec.subst (designated ...) = exactly the designated mapping values /
-   sequence elements replaced, everything else rebuilt untouched. *)
+   sequence elements replaced, then C03spec.ksubst (kdesignated ...) = exactly the
+   mapping keys that are true aliases of the matched node replaced; everything
+   else rebuilt untouched. *)
 From Coq Require Import List ZArith NArith Bool String.
 From YP Require Import Outcome PyStr PyVal Doc Searches Mutate Create History C04spec C03spec C03hist C03set C03erase C03history.
 Import ListNotations.
@@ -14,29 +17,53 @@ Open Scope list_scope.
 
 (* The whole-document walk of _update_node IS the pointwise substitution: the
    matched node (object roid at parent poid / reference pref) and every alias of
-   it are replaced; no key, no other value, no order, no anchor, no set changes.
-   Side conditions: ruamel containers carry the anchor attribute (wf_attr), and
-   the matched object is not also used as a mapping key / set member. *)
+   it are replaced - as a mapping value, as a sequence element AND as a mapping
+   key (`? *alias`); no other key, no other value, no order, no anchor, no set
+   changes.  Side conditions: ruamel containers carry the anchor attribute
+   (wf_attr); the keys of every mapping are pairwise different (mkeys_distinct,
+   true of every loaded document); the matched object is not a set member and is
+   ONE object (alias_clean); the new node is a scalar; and the change is not one
+   the code refuses (key_conflict: an alias key would land on an existing key -
+   see C03_key_collision_refused). *)
 Theorem C03_recurse_is_substitution : forall poid pref roid repl d,
-  wf_attr d = true -> keys_sets_clean poid roid d = true ->
-  recurse poid pref roid repl d = subst (designated poid pref roid) repl d.
+  (exists ri rv, repl = NLeaf ri rv) ->
+  wf_attr d = true -> alias_clean poid roid d = true -> mkeys_distinct d = true ->
+  key_conflict roid repl d = false ->
+  recurse poid pref roid repl d
+  = ksubst (kdesignated roid) repl (subst (designated poid pref roid) repl d).
 Proof. exact recurse_subst. Qed.
 Print Assumptions C03_recurse_is_substitution.
 
 (* One change (_update_node) for every oracle (literal_eval, float), value,
    format: the new document is the old one with the matched node c and its
-   aliases replaced by the ONE new node make_new_node built from c. *)
+   aliases - those used as mapping keys included - replaced by the ONE new
+   node make_new_node built from c.  (Before fix 7612ed9 the hypothesis was
+   keys_sets_clean, which excluded every alias used as a key: known finding F24.) *)
 Theorem C03_set_exact : forall lit fl p value fmt vo d next d' next' o pn c,
   wf_attr d = true ->
   pc_parent p = Some o -> find_obj o d = Some pn ->
   get_change pn (norm_ref pn (pc_ref p)) = ROk (Some c) ->
-  keys_sets_clean o (node_oid c) d = true ->
+  alias_clean o (node_oid c) d = true -> mkeys_distinct d = true ->
   update_node lit fl p value fmt vo (d, next) = ROk (d', next') ->
   exists new, make_new_node lit fl (Some (node_info c)) value fmt next vo = ROk new /\
-              d' = subst (designated o (norm_ref pn (pc_ref p)) (node_oid c)) new d /\
+              d' = ksubst (kdesignated (node_oid c)) new
+                     (subst (designated o (norm_ref pn (pc_ref p)) (node_oid c)) new d) /\
               next' = N.succ next.
 Proof. exact update_exact. Qed.
 Print Assumptions C03_set_exact.
+
+(* The repaired behaviour, for every document: when an alias of the changed node
+   is a mapping key and the new node equals another key of that mapping, the
+   change is refused with the DuplicateKey YAML Path error (run_actions keeps the
+   state it had: C03_failure_is_clean - nothing is modified). *)
+Theorem C03_key_collision_refused : forall lit fl p value fmt vo d next o pn c new,
+  pc_parent p = Some o -> find_obj o d = Some pn ->
+  get_change pn (norm_ref pn (pc_ref p)) = ROk (Some c) ->
+  make_new_node lit fl (Some (node_info c)) value fmt next vo = ROk new ->
+  key_conflict (node_oid c) new d = true ->
+  update_node lit fl p value fmt vo (d, next) = RErr (YPE DuplicateKey).
+Proof. exact update_conflict_refused. Qed.
+Print Assumptions C03_key_collision_refused.
 
 (* ... and that new node holds the converted new value, no tag other than the
    ScalarBoolean marker of Doc.is_sbool, and - when a ruamel wrapper was built -
@@ -82,11 +109,27 @@ Theorem C03_frame : forall P repl d, (forall o c x, P o c x = false) -> subst P 
 Proof. exact subst_frame. Qed.
 Print Assumptions C03_frame.
 
+(* ... and the key replacement: an entry keeps its place and its value; its key is replaced iff designated *)
+Theorem C03_ksubst_map_pointwise : forall K repl i kvs n k v,
+  nth_error kvs n = Some (k, v) ->
+  exists kvs', ksubst K repl (NMap i kvs) = NMap i kvs' /\ List.length kvs' = List.length kvs /\
+    nth_error kvs' n = Some (if K k then repl else k, ksubst K repl v).
+Proof. exact ksubst_map_nth. Qed.
+Print Assumptions C03_ksubst_map_pointwise.
+
+Theorem C03_key_frame : forall K repl d, (forall k, K k = false) -> ksubst K repl d = d.
+Proof. exact ksubst_frame. Qed.
+Print Assumptions C03_key_frame.
+
 (* The invariant the next edit needs survives (sequences of edits). *)
 Theorem C03_wf_preserved : forall P repl d,
   wf_attr d = true -> wf_attr repl = true -> wf_attr (subst P repl d) = true.
 Proof. exact subst_wf_attr. Qed.
 Print Assumptions C03_wf_preserved.
+
+Theorem C03_wf_preserved_keys : forall K repl d, wf_attr d = true -> wf_attr (ksubst K repl d) = true.
+Proof. exact ksubst_wf_attr. Qed.
+Print Assumptions C03_wf_preserved_keys.
 
 (* A set_value that fails (type mismatch, ...) stops at the failing change:
    every earlier change of the same call is complete, the failing one changed
@@ -109,14 +152,23 @@ Theorem C03_erase_subst : forall P repl d,
 Proof. exact erase_subst. Qed.
 Print Assumptions C03_erase_subst.
 
+(* ... and the replacement of alias keys into a re-filing of the selected entries under the new key *)
+Theorem C03_erase_ksubst : forall K ri rv d,
+  erase (ksubst K (NLeaf ri rv) d) = drekey (mask_keys K d) rv (erase d).
+Proof. exact erase_ksubst. Qed.
+Print Assumptions C03_erase_ksubst.
+
 (* THE CHAIN (composition of C03_set_exact + C03_wf_preserved): after any
    sequence of changes of one set_value call - every change under the hypotheses
    of C03_set_exact, evaluated on the document that change meets (acts_ok,
    computable) - the document is the successive substitution: every matched node
    and every alias of a matched anchored node holds the new value, everything
-   else is as before; on plain data one replacement-at-locations per change; and
-   the invariant still holds for the next edit.  Guard acts_ok excludes the known
-   finding F24 (alias used as a key) and [name()] renames. *)
+   else is as before; on plain data per change one replacement-at-locations
+   (PReplace) and one re-filing of the entries whose key is an alias (PRekey);
+   and the invariant still holds for the next edit.  Guard acts_ok (computable
+   along the run) no longer excludes aliases used as keys (F24 repaired by fix
+   7612ed9); what it still asks: no [name()] rename, the matched node is not a
+   set member, mappings have pairwise different keys (hence still _partial). *)
 Theorem C03_chain_partial : forall lit fl value vo acts st st',
   wf_attr (fst st) = true -> acts_ok lit fl value vo acts st = true ->
   run_actions lit fl value vo acts st = SDone st' ->
@@ -129,11 +181,13 @@ Print Assumptions C03_chain_partial.
    document the previous one left) that completes, each operation under its
    guard (hist_ok, computable along the model's own run: the invariants wf_attr /
    wf_doc hold where the operation starts, C03_set_exact's hypotheses for every
-   change, C04's guard for a delete), the model's run REFINES the plain-data
+   change, every coordinate of a delete locates a node), the model's run REFINES the plain-data
    model over Doc.erase: Set = replacements at locations (dsubst), Delete = a
    removal at locations (dprune), Create = children appended (dembeds) followed by
-   a replacement at the yielded location.  Guards exclude the known findings F24,
-   F15 and [name()] renames (hence _partial). *)
+   a replacement at the yielded location.  Guards exclude [name()] renames and
+   matched set members (hence _partial); aliases used as keys are inside (F24
+   repaired by fix 7612ed9) and a Delete step is no longer restricted (C04 F15
+   repaired by fix 17f9ea8: C04_delete_exact is full). *)
 Theorem C03_history_partial : forall lit fl ops d k d',
   hist_ok lit fl ops d = true -> run_ops lit fl ops d k = HDone d' ->
   psteps (abs_ops lit fl ops d) (erase d) (erase d').
@@ -161,7 +215,7 @@ Definition no_fl (s : string) : outcome flres := Ok FFail.
 (* [1, 1, 2]: the two 1s are ONE CPython object (oid 1) - DESIGN #13 *)
 Definition doc13 : node := NSeq (ct 0) [iv 1 1; iv 1 1; iv 2 2].
 Example C03_shared_int_nonvacuous :
-  wf_attr doc13 = true /\ keys_sets_clean 0 1 doc13 = true /\
+  wf_attr doc13 = true /\ alias_clean 0 1 doc13 = true /\ mkeys_distinct doc13 = true /\
   update_node no_lit no_fl (mkpc (Some 0%N) (PInt 1)) (PStr "new") FBare 9 (doc13, 3%N)
   = ROk (NSeq (ct 0) [iv 1 1; NLeaf (mkinfo 3 None true None) (PStr "new"); iv 2 2], 4%N).
 Proof. vm_compute. repeat split. Qed.
@@ -171,7 +225,7 @@ Definition xa : node := NLeaf (an 2 "a") (PStr "x").
 Definition doc23 : node :=
   NMap (ct 0) [ (sk 1 "k", xa); (sk 3 "l", NSeq (ct 4) [xa]); (sk 5 "m", xa) ].
 Example C03_aliases_follow_nonvacuous :
-  wf_attr doc23 = true /\ keys_sets_clean 0 2 doc23 = true /\
+  wf_attr doc23 = true /\ alias_clean 0 2 doc23 = true /\ mkeys_distinct doc23 = true /\
   update_node no_lit no_fl (mkpc (Some 0%N) (PStr "k")) (PStr "new") FBare 9 (doc23, 6%N)
   = ROk (let n := NLeaf (an 6 "a") (PStr "new") in
          NMap (ct 0) [ (sk 1 "k", n); (sk 3 "l", NSeq (ct 4) [n]); (sk 5 "m", n) ], 7%N).
@@ -180,7 +234,7 @@ Proof. vm_compute. repeat split. Qed.
 (* {a: b, b: x}: key b is the same interned object (oid 2) as the old value; it is NOT renamed *)
 Definition doc13b : node := NMap (ct 0) [ (sk 1 "a", sk 2 "b"); (sk 2 "b", sk 3 "x") ].
 Example C03_key_spelled_like_value_nonvacuous :
-  keys_sets_clean 0 2 doc13b = true /\
+  alias_clean 0 2 doc13b = true /\ mkeys_distinct doc13b = true /\
   update_node no_lit no_fl (mkpc (Some 0%N) (PStr "a")) (PStr "q") FBare 9 (doc13b, 4%N)
   = ROk (NMap (ct 0) [ (sk 1 "a", NLeaf (mkinfo 4 None true None) (PStr "q")); (sk 2 "b", sk 3 "x") ], 5%N).
 Proof. vm_compute. repeat split. Qed.
@@ -201,43 +255,34 @@ Example C03_history_nonvacuous :
                         (PStr "m", DLeaf (PInt 5)) ]
   | HFailed _ _ _ => False
   end /\
-  List.length (abs_ops no_lit no_fl hist23 doc23) = 5%nat.
+  List.length (abs_ops no_lit no_fl hist23 doc23) = 8%nat.
 Proof. vm_compute. repeat split. Qed.
 
-(* ---- known finding F24: without keys_sets_clean the statement is false ----
-   {m: {foo: bar, &n x: a}, c: *n} set c := foo.  The alias of the changed
-   node is used as a KEY of m; renaming it onto the existing key foo drops an
-   entry of m - a bystander is lost. *)
+(* ---- former known finding F24, repaired by fix 7612ed9 ----
+   {m: {foo: bar, &n x: a}, c: *n}: the alias of the changed node is used as a
+   KEY of m.
+   set c := foo - the renamed key would land on the existing key foo (the old
+   code dropped an entry of m: the former C03_alias_key_refuted / C03_history_refuted
+   witness): refused with DuplicateKey, the document is unchanged.
+   set c := new - inside the guard now: the value at c AND the key of m follow. *)
 Definition nx : node := NLeaf (an 5 "n") (PStr "x").
 Definition doc24 : node :=
   NMap (ct 0) [ (sk 1 "m", NMap (ct 2) [ (sk 3 "foo", sk 4 "bar"); (nx, sk 6 "a") ]);
                 (sk 7 "c", nx) ].
-Theorem C03_alias_key_refuted : exists d p v d' next' o pn c new,
-  wf_attr d = true /\ pc_parent p = Some o /\ find_obj o d = Some pn /\
-  get_change pn (norm_ref pn (pc_ref p)) = ROk (Some c) /\
-  update_node no_lit no_fl p v FBare 99 (d, 8%N) = ROk (d', next') /\
-  make_new_node no_lit no_fl (Some (node_info c)) v FBare 8 99 = ROk new /\
-  d' <> subst (designated o (norm_ref pn (pc_ref p)) (node_oid c)) new d.
-Proof.
-  exists doc24, (mkpc (Some 0%N) (PStr "c")), (PStr "foo").
-  eexists. eexists. exists 0%N. eexists. eexists. eexists.
-  repeat split; try (vm_compute; reflexivity).
-  vm_compute. discriminate.
-Qed.
-Print Assumptions C03_alias_key_refuted.
-
-(* ... and so is the history statement without its guard: the same single-step history does not refine the
-   plain-data replacement (an entry of m is lost) *)
 Definition hist24 : list hop := [ HSet [CNode (mkpc (Some 0%N) (PStr "c")) false] (PStr "foo") FBare None ].
-Theorem C03_history_refuted : exists ops d d',
-  run_ops no_lit no_fl ops d 0 = HDone d' /\
-  ~ psteps (abs_ops no_lit no_fl ops d) (erase d) (erase d').
-Proof.
-  exists hist24, doc24. eexists. split.
-  - vm_compute. reflexivity.
-  - intro Hp.
-    assert (E : exists m v, abs_ops no_lit no_fl hist24 doc24 = [PReplace m v]) by (eexists; eexists; vm_compute; reflexivity).
-    destruct E as [m [v E]]. rewrite E in Hp. apply psteps_single_replace in Hp.
-    vm_compute in E. inversion E; subst m v. vm_compute in Hp. discriminate.
-Qed.
-Print Assumptions C03_history_refuted.
+Definition hist24b : list hop := [ HSet [CNode (mkpc (Some 0%N) (PStr "c")) false] (PStr "new") FBare None ].
+
+Example C03_alias_key_collision_repaired :
+  key_conflict 5 (NLeaf (an 8 "n") (PStr "foo")) doc24 = true /\
+  update_node no_lit no_fl (mkpc (Some 0%N) (PStr "c")) (PStr "foo") FBare 99 (doc24, 8%N) = RErr (YPE DuplicateKey) /\
+  run_ops no_lit no_fl hist24 doc24 0 = HFailed doc24 (YPE DuplicateKey) 0.
+Proof. vm_compute. repeat split. Qed.
+
+Example C03_alias_key_follows_nonvacuous :
+  wf_attr doc24 = true /\ alias_clean 0 5 doc24 = true /\ mkeys_distinct doc24 = true /\
+  hist_ok no_lit no_fl hist24b doc24 = true /\
+  run_ops no_lit no_fl hist24b doc24 0
+  = HDone (let n := NLeaf (an 9 "n") (PStr "new") in
+           NMap (ct 0) [ (sk 1 "m", NMap (ct 2) [ (sk 3 "foo", sk 4 "bar"); (n, sk 6 "a") ]); (sk 7 "c", n) ]) /\
+  List.length (abs_ops no_lit no_fl hist24b doc24) = 2%nat.
+Proof. vm_compute. repeat split. Qed.
